@@ -373,6 +373,21 @@ func runHostile(env *Env) error {
 				reqs = append(reqs, &Req{Op: opWriteFile, N: 5, Payload: []byte("pwned"), Junk: make([]byte, 14)})
 			}
 		}
+		// every path opcode, in every case, once with a plain way out of the root (the templates in rotation); these come
+		// first and none of them can end the connection, so they are always reached
+		escapes := []string{"/../R-other/new1", "/../Rx/sub/new2", "/sub/../../R-other/n3", "../R-other/secret", "/../secret", "/../R-other", "/../Rx/x.iso",
+			"/../R-other/sub/deep", "/a/../../Rx/secret", "/../../R-other/new4", "/PS3ISO/../../Rx/new5", "/../R-new", "/../Rx/sub"}
+		var first []*Req
+		for j, op := range pathOps {
+			first = append(first, &Req{Op: op, Path: escapes[(i/2+j*5)%len(escapes)], Junk: make([]byte, 14)})
+			switch op {
+			case opOpenDir:
+				first = append(first, &Req{Op: opReadDir, Junk: make([]byte, 14)})
+			case opCreateFile:
+				first = append(first, &Req{Op: opWriteFile, N: 5, Payload: []byte("pwned"), Junk: make([]byte, 14)})
+			}
+		}
+		reqs = append(first, reqs...)
 		var chunks [][]byte
 		var ops []int
 		for _, q := range reqs {
@@ -397,7 +412,7 @@ func runHostile(env *Env) error {
 				if bytes.Contains(so.out, secretMarker) || bytes.Contains(so.out, []byte("other-world other-world")) {
 					env.OracleFail(id, fmt.Sprintf("[C01-leak] request %d %s: the response carries bytes of a file outside the root", k, reqs[k].String()))
 				}
-				if reqs[k].Op == opStatFile && len(so.out) == 33 && int64(binary.BigEndian.Uint64(so.out[:8])) == secretSize {
+				if (reqs[k].Op == opStatFile && len(so.out) == 33 || reqs[k].Op == opOpenFile && len(so.out) == 16) && int64(binary.BigEndian.Uint64(so.out[:8])) == secretSize {
 					env.OracleFail(id, fmt.Sprintf("[C01-leak] request %d %s: announced the size of an outside file", k, reqs[k].String()))
 				}
 			})
